@@ -12,7 +12,7 @@ SHARDS = {"quick": 8, "thorough": 16}
 RULE = ("1..3 hosts on a simulated UDP network, each with source IPv4 address, 48-bit id (byte-boundary bias), port 1..65535, "
         "32-char serial, name net_<tt>_<suffix> with tt = any byte in lower or upper hex, reported IP equal to or different from "
         "the source, 0..80 trailing body bytes, reply version 2 or 3, listening on 6445 or 20086, replying from either port after "
-        "a delay below the timeout (default 5 s; also 0.5..9 s, in particular with auto-connected hosts whose TCP side hangs, refuses or is unreachable); replies built by the independent reply builder (anchored to captured replies). Hosts answer "
+        "a delay below the timeout, optionally next to up to two responders whose replies are malformed (every class of C18's catalogue; what happens to those is C18's business) (default 5 s; also 0.5..9 s, in particular with auto-connected hosts whose TCP side hangs, refuses or is unreachable); replies built by the independent reply builder (anchored to captured replies). Hosts answer "
         "only a datagram that arrives on their port, carries a valid signature, decrypts and equals the well-known probe. "
         "Targets: limited broadcast, a directed (subnet) broadcast, a literal address or a host name. With auto_connect (V2 hosts only) the host's TCP port answers, refuses, is unreachable or hangs. Oracle: Discover.discover / discover_single return exactly one object per host with ip == source "
         "address and port, id, sn, name, type, version as encoded; AirConditioner iff tt == 0xAC else Device. All 256 type bytes "
@@ -37,8 +37,14 @@ def check_case(case: dict):
             routes["10.255.255.255"] = [h["ip"] for h in hosts]
         elif target == "name":
             routes["ac-livingroom.lan"] = [hosts[0]["ip"]]
+        # other responders on the network whose replies are not well-formed (C18 decides what happens to *them*; here
+        # they must not keep a well-formed responder from being reported)
+        bad = [dict(ip=f"10.0.9.{i + 1}", listen_port=[6445, 20086][i % 2],
+                    replies=[(b.get("delay", 0.02), 6445, discsim.bad_reply(b["kind"], b["arg"], f"10.0.9.{i + 1}"))]) for i, b in enumerate(case.get("bad", []))]
+        if target == "directed":
+            routes["10.255.255.255"] += [b["ip"] for b in bad]
         world = discsim.UdpWorld(net, [dict(ip=h["ip"], listen_port=h["listen_port"],
-                                            replies=[(h["delay"], h["src_port"], discsim.good_reply(h))]) for h in hosts], routes)
+                                            replies=[(h["delay"], h["src_port"], discsim.good_reply(h))]) for h in hosts] + bad, routes)
         auto = bool(case.get("auto_connect")) and all(h["version"] == 2 for h in hosts)
         if auto:
             # V2 hosts: reachable over TCP (a model device answers), or refusing / unreachable / hanging
@@ -63,12 +69,12 @@ def check_case(case: dict):
             res["exc"] = e
         res["bad_probes"] = world.bad_probes
         res["probes"] = len(world.probes_seen)
-        res["tcp"] = list(net.tcp_attempts)
+        res["tcp"] = [a for a in net.tcp_attempts if not str(a[1]).startswith("10.0.9.")]      # (V1/XML neighbours are queried over TCP by design)
 
     vloop.run(main, net)
     if "exc" in res:
         return (f"raises/{type(res['exc']).__name__}", f"discover raised {res['exc']!r}")
-    devs = res["devices"]
+    devs = [d for d in res["devices"] if not d.ip.startswith("10.0.9.")]
     expected_hosts = hosts[:1] if (case.get("single") or case.get("target") == "name") else hosts
     by_ip = {}
     for d in devs:
@@ -158,13 +164,31 @@ def run(ctx) -> None:
                 ctx.check(case, lambda c: _run_one(ctx, c))
     ctx.sweep("timeout argument x TCP behaviour of auto-connected hosts", k, True)
 
+    from . import c18
+
+    # every class of malformed neighbour next to two well-formed hosts
+    b = 0
+    for kind in discsim.BAD_KINDS:
+        for arg in c18._args_for(kind, lambda n: bytes((i * 11 + 3) & 0xFF for i in range(n))):
+            b += 1
+            if not ctx.mine(b):
+                continue
+            hosts = [{"ip": f"10.3.{b % 200}.{i + 1}", "id": 0x0A0B0C000000 + 16 * b + i, "port": 6444, "sn": f"{b:030d}{i:02d}", "tt": 0xAC, "suffix": "F7B4", "upper": False,
+                      "version": 2 + i, "listen_port": 6445, "src_port": 6445, "delay": [0.01, 0.05][i], "extra": ""} for i in range(2)]
+            case = {"hosts": hosts, "target": [None, "directed"][b % 2], "bad": [{"kind": kind, "arg": arg, "delay": [0.005, 0.03, 0.2][b % 3]}]}
+            ctx.check(case, lambda c: _run_one(ctx, c))
+    ctx.sweep("every malformed-neighbour class value next to two well-formed hosts", b, True)
+
     def with_mode(c):
         def fin(t):
             out = dict(c, target=t[0], auto_connect=t[1])
             if t[2] is not None and all(h["delay"] < t[2] * 0.9 for h in c["hosts"]):
                 out["timeout"] = t[2]
             return out
-        return st.tuples(st.sampled_from([None, None, "directed", "name"]), st.booleans(), st.sampled_from([None, None, 0.5, 1.5, 2, 8])).map(fin)
+        bads = st.lists(st.sampled_from(discsim.BAD_KINDS).flatmap(lambda k: st.sampled_from(c18._args_for(k, lambda n: bytes(range(7, 7 + n)) if n < 200 else bytes(n))).map(
+            lambda a: {"kind": k, "arg": a})), max_size=2)
+        return st.tuples(st.sampled_from([None, None, "directed", "name"]), st.booleans(), st.sampled_from([None, None, 0.5, 1.5, 2, 8]), bads).map(
+            lambda t: dict(fin(t), bad=t[3]) if (t[3] and t[0] != "name" and not c.get("single")) else fin(t))
     cases = st.one_of(
         st.tuples(host_strategy(1)).map(lambda t: {"hosts": list(t)}),
         st.tuples(host_strategy(1), st.booleans()).map(lambda t: {"hosts": [t[0]], "single": t[1]}),
